@@ -56,6 +56,8 @@ type verifC20Cmd struct {
 	combined          bool
 	calledOutput      int
 	calledCombined    int
+	pipeUsed          bool // the code under test asked for a stdin pipe
+	pipeCap           int  // bytes the pipe buffers while nobody reads
 }
 
 var verifC20 verifC20Cmd
@@ -63,6 +65,10 @@ var verifC20 verifC20Cmd
 type verifC20Pipe struct{}
 
 func (verifC20Pipe) Write(p []byte) (int, error) {
+	// a write to a pipe whose reader (the tool) is not running yet blocks once the buffer is full
+	if verifC20.calledOutput+verifC20.calledCombined == 0 && len(p) > verifC20.pipeCap {
+		verifCheck(false, "tool-never-started-because-the-stdin-pipe-is-full")
+	}
 	if verifC20.writeErr {
 		return 0, errors.New("broken pipe")
 	}
@@ -73,6 +79,7 @@ func (verifC20Pipe) Close() error { return nil }
 func verifC20Command(name string, arg ...string) *exec.Cmd { return &exec.Cmd{Path: name} }
 
 func verifC20StdinPipe(c *exec.Cmd) (io.WriteCloser, error) {
+	verifC20.pipeUsed = true
 	if verifC20.pipeErr {
 		return nil, errors.New("pipe failed")
 	}
@@ -115,6 +122,7 @@ func HarnessC20Run() {
 	st.code = verifSymInt("code")
 	st.stdoutLen = verifChoose("stdoutLen", 3)
 	st.combined = verifSymBool("combined")
+	st.pipeCap = []int{65536, 4}[verifChoose("pipecap", 2)] // the script below has 6 bytes
 	var out []byte
 	var err error
 	if verifIsNative() {
@@ -134,7 +142,7 @@ func HarnessC20Run() {
 		out, err = e.run()
 	}
 	verifReach("returned")
-	started := verifAnd(verifNot(st.pipeErr), verifNot(st.writeErr))
+	started := verifOr(!st.pipeUsed, verifAnd(verifNot(st.pipeErr), verifNot(st.writeErr))) // pipe faults only matter if a pipe is used
 	fail := verifNot(started)
 	if st.class == 2 {
 		fail = true
